@@ -14,6 +14,7 @@ import (
 	"strconv"
 	"strings"
 	"sync"
+	"sync/atomic"
 	"time"
 
 	simplefixgo "github.com/b2broker/simplefix-go"
@@ -296,6 +297,10 @@ func (h *syncHandler) Send(m simplefixgo.SendingMessage) error {
 	return err
 }
 
+// hbMax is the acceptor's configured maximum heartbeat interval for the sessions created next (the peer logs on with
+// N = 1: with hbMax = 1 it sits exactly on the edge of the permitted range)
+var hbMax atomic.Int32
+
 func newSessWrapped(side int, approve bool, logon string, wrap func(*simplefixgo.DefaultHandler) session.Handler) *sessRun {
 	store := memory.NewStorage()
 	sr := &sessRun{}
@@ -308,7 +313,7 @@ func newSessWrapped(side int, approve bool, logon string, wrap func(*simplefixgo
 	}
 	if side == 0 {
 		sr.h = simplefixgo.NewAcceptorHandler(context.Background(), "35", 64)
-		sr.s, err = session.NewAcceptorSession(opts(), router(), &session.LogonSettings{LogonTimeout: time.Second, HeartBtLimits: &session.IntLimits{Min: 1, Max: 60}},
+		sr.s, err = session.NewAcceptorSession(opts(), router(), &session.LogonSettings{LogonTimeout: time.Second, HeartBtLimits: &session.IntLimits{Min: 1, Max: int(hbMax.Load())}},
 			func(*session.LogonSettings) error {
 				if approve {
 					return nil
@@ -751,7 +756,9 @@ func main() {
 		wg.Add(1)
 		go func() { defer wg.Done(); longTimerCase(rl, o) }()
 	}
+	hbMax.Store(60)
 	for i := 0; i < *n; i++ {
+		hbMax.Store([]int32{60, 1}[i%2]) // every other round: the acceptor's maximum is the interval the peer asks for
 		rr := rand.New(rand.NewSource(r.Int63()))
 		rr6 := rand.New(rand.NewSource(r.Int63()))
 		wg.Add(1)
